@@ -7,6 +7,7 @@ import (
 	"context"
 	"errors"
 	"fmt"
+	"sync"
 	"testing"
 	"time"
 
@@ -30,7 +31,12 @@ type Op struct {
 	Kind string `json:"kind"` // block | nilblock | lookup | advance | clean
 	Root int    `json:"root,omitempty"`
 	// Fail: the header provider fails if this lookup has to consult it.
-	Fail   bool   `json:"fail,omitempty"`
+	Fail bool `json:"fail,omitempty"`
+	// FailKind: how it fails: 0 plain error, 1 api.Error 404 (what the HTTP client returns for an unknown
+	// block), 2 api.Error 503, 3 context deadline exceeded.
+	FailKind int `json:"fail_kind,omitempty"`
+	// Burst (kind "burst"): number of goroutines delivering block events while cleans run concurrently.
+	Burst int `json:"burst,omitempty"`
 	Epochs uint64 `json:"epochs,omitempty"` // advance
 	Slots  uint64 `json:"slots,omitempty"`  // advance (in addition to epochs)
 }
@@ -45,6 +51,15 @@ type Case struct {
 	Ops           []Op     `json:"ops"`
 }
 
+// burstRoot is a root outside the universe, unique per (op, goroutine, k).
+func burstRoot(op, g, k int) phase0.Root {
+	var r phase0.Root
+	r[0] = 0xff
+	r[1], r[2], r[3] = byte(op), byte(g), byte(k)
+	r[31] = 0xc2
+	return r
+}
+
 func rootOf(i int) phase0.Root {
 	var r phase0.Root
 	r[0] = byte(i + 1)
@@ -57,11 +72,20 @@ type headers struct {
 	c        *Case
 	calls    int
 	failNext bool
+	failKind int
 }
 
 func (h *headers) BeaconBlockHeader(_ context.Context, opts *api.BeaconBlockHeaderOpts) (*api.Response[*apiv1.BeaconBlockHeader], error) {
 	h.calls++
 	if h.failNext {
+		switch h.failKind {
+		case 1:
+			return nil, &api.Error{Method: "GET", Endpoint: "/eth/v1/beacon/headers/" + opts.Block, StatusCode: 404, Data: []byte(`{"code":404,"message":"NOT_FOUND: beacon block not found"}`)}
+		case 2:
+			return nil, &api.Error{Method: "GET", Endpoint: "/eth/v1/beacon/headers/" + opts.Block, StatusCode: 503, Data: []byte(`{"code":503,"message":"syncing"}`)}
+		case 3:
+			return nil, context.DeadlineExceeded
+		}
 		return nil, errors.New("scripted header failure")
 	}
 	for i := range h.c.RootSlot {
@@ -110,14 +134,19 @@ func genCase(t *rapid.T) Case {
 	slotInEpoch := uint64(0)
 	var epochsAt []uint64
 	for i := 0; i < nOps; i++ {
-		kind := rapid.SampledFrom([]string{"block", "block", "lookup", "lookup", "lookup", "advance", "clean", "clean", "nilblock"}).Draw(t, "kind")
+		kind := rapid.SampledFrom([]string{"block", "block", "lookup", "lookup", "lookup", "advance", "clean", "clean", "nilblock", "burst"}).Draw(t, "kind")
 		op := Op{Kind: kind}
 		switch kind {
 		case "block", "lookup":
 			op.Root = rapid.IntRange(0, nRoots-1).Draw(t, "root")
 			if kind == "lookup" {
 				op.Fail = rapid.IntRange(0, 3).Draw(t, "fail") == 0
+				if op.Fail {
+					op.FailKind = rapid.IntRange(0, 3).Draw(t, "failKind")
+				}
 			}
+		case "burst":
+			op.Burst = rapid.IntRange(2, 4).Draw(t, "burst")
 		case "advance":
 			op.Epochs = rapid.SampledFrom([]uint64{0, 0, 1, 1, 2, 30, 63, 64, 65, 200}).Draw(t, "epochs")
 			op.Slots = rapid.Uint64Range(0, c.SlotsPerEpoch-1).Draw(t, "slots")
@@ -147,7 +176,7 @@ func genCase(t *rapid.T) Case {
 }
 
 type stats struct {
-	missNonZero, cleanAfterRetention, boundaryKept, failedFetch, hitAfterMiss bool
+	missNonZero, cleanAfterRetention, boundaryKept, failedFetch, hitAfterMiss, burst bool
 }
 
 // runAndJudge executes the history against a fresh real cache service and the
@@ -195,6 +224,62 @@ func runAndJudge(c *Case) (string, string, stats) {
 			delete(maybe, op.Root)
 		case "nilblock":
 			blockHandler(&apiv1.Event{Topic: "block"})
+		case "burst":
+			// Block events of the current slot (well inside the window) delivered from several
+			// goroutines while cleaning runs: event stream and clean job are different goroutines
+			// in production.  Afterwards every delivered root must still be answered from the cache.
+			st.burst = true
+			const perG = 40
+			var wg sync.WaitGroup
+			stop := make(chan struct{})
+			wg.Add(1)
+			go func() {
+				defer wg.Done()
+				for {
+					select {
+					case <-stop:
+						return
+					default:
+						sched.Fire(cleanJob)
+					}
+				}
+			}()
+			var dg sync.WaitGroup
+			for g := 0; g < op.Burst; g++ {
+				dg.Add(1)
+				go func(g int) {
+					defer dg.Done()
+					for k := 0; k < perG; k++ {
+						blockHandler(&apiv1.Event{Topic: "block", Data: &apiv1.BlockEvent{Slot: phase0.Slot(curSlot), Block: burstRoot(i, g, k)}})
+					}
+				}(g)
+			}
+			dg.Wait()
+			close(stop)
+			wg.Wait()
+			hp.failNext = true
+			hp.failKind = 0
+			for g := 0; g < op.Burst; g++ {
+				for k := 0; k < perG; k++ {
+					before := hp.calls
+					got, err := svc.BlockRootToSlot(ctx, burstRoot(i, g, k))
+					if hp.calls != before || err != nil || uint64(got) != curSlot {
+						return "entry-lost-during-clean", fmt.Sprintf("op %d burst: block event for the current slot %d delivered while a clean was running is no longer cached (lookup: slot %d, err %v, node asked: %v)", i, curSlot, got, err, hp.calls != before), st
+					}
+				}
+			}
+			hp.failNext = false
+			// the clean runs also act as a clean for the model
+			curEpoch := curSlot / c.SlotsPerEpoch
+			if curEpoch >= retentionEpochs {
+				minSlot := (curEpoch - retentionEpochs) * c.SlotsPerEpoch
+				for r := range model {
+					if c.RootSlot[r] < minSlot {
+						delete(model, r)
+						maybe[r] = true
+					}
+				}
+			}
 		case "advance":
 			curSlot += op.Epochs*c.SlotsPerEpoch + op.Slots
 			clock.SetSlot(curSlot, 3*time.Second)
@@ -221,6 +306,7 @@ func runAndJudge(c *Case) (string, string, stats) {
 		case "lookup":
 			want := c.RootSlot[op.Root]
 			hp.failNext = op.Fail
+			hp.failKind = op.FailKind
 			before := hp.calls
 			got, err := svc.BlockRootToSlot(ctx, rootOf(op.Root))
 			consulted := hp.calls - before
@@ -312,6 +398,9 @@ func check(t ev.TB, c *Case) {
 	}
 	if st.failedFetch {
 		labels = append(labels, "failed-fetch")
+	}
+	if st.burst {
+		labels = append(labels, "block-events-concurrent-with-clean")
 	}
 	ev.Case(nontrivial, ev.Hash(c), labels...)
 	if nontrivial {
